@@ -83,15 +83,24 @@ class Run:
     # ---------- harness ----------
     def build_harness(self, race=False):
         h = os.path.join(VERIF, "harness")
-        try:
-            shutil.copy(os.path.join(REPO, "go.sum"), os.path.join(h, "go.sum"))
-        except OSError as e:
-            raise Infra("cannot copy go.sum: %s" % e)
         out = os.path.join(self.scratch, "vh-race" if race else "vh")
-        cmd = ["go", "build", "-tags", "verif"] + (["-race"] if race else []) + ["-o", out, "./cmd/vh"]
+        cmd = ["go", "build", "-tags", "verif"] + (["-race"] if race else [])
+        try:
+            if REPO == "/repo":
+                shutil.copy(os.path.join(REPO, "go.sum"), os.path.join(h, "go.sum"))
+            else:
+                # evaluation of a scratch worktree (seeded changes): same harness sources, module replaced by $VERIF_REPO
+                mf = os.path.join(self.scratch, "alt.mod")
+                with open(mf, "w") as f:
+                    f.write(open(os.path.join(h, "go.mod")).read().replace("=> /repo", "=> " + REPO))
+                shutil.copy(os.path.join(REPO, "go.sum"), os.path.join(self.scratch, "alt.sum"))
+                cmd += ["-modfile", mf]
+        except OSError as e:
+            raise Infra("cannot prepare go.sum / go.mod: %s" % e)
+        cmd += ["-o", out, "./cmd/vh"]
         p = subprocess.run(cmd, cwd=h, env=GOENV, capture_output=True, text=True)
         if p.returncode != 0:
-            raise Infra("harness build failed (does /repo compile with -tags verif?):\n" + p.stderr[-3000:])
+            raise Infra("harness build failed (does the repository compile with -tags verif?):\n" + p.stderr[-3000:])
         if not race:
             self.vh = out
         return out
